@@ -54,3 +54,12 @@ package ippool
 //@   ensures (res < 0) <==> poolBefore(poolA, poolB)
 //@   ensures (res > 0) <==> poolBefore(poolB, poolA)
 //@   assigns nothing
+
+//@ -- The overlap decision: a pool enters the set of allocatable pools (and the trie of claimed prefixes) only
+//@ -- if no prefix already claimed - by an earlier-sorted allocatable pool or by a terminating pool - overlaps
+//@ -- it: none equal to it, none inside it and none containing it.  (The trie is used through its abstract
+//@ -- model, felix/ip: a set of prefixes with Get / Intersects / Covers.)
+//@ func (*IPPoolController).reconcileConditions
+//@   property C39
+//@   option safety off
+//@   ghost at call Update#1: check forall q ip.CIDR :: old(t.cidrs[q]) ==> q != cidr && !cidrWithin(q, cidr) && !cidrWithin(cidr, q)
